@@ -90,7 +90,8 @@ class EOL(Leaf):
 
     def _pretty(self, lean=False):
         _ = lean
-        return EOL_SYM
+        # NOTE: the symbol of the grammar language; EOL_SYM is for display only
+        return '$->'
 
 
 @nodedataclass
